@@ -1,6 +1,6 @@
 """C10 — Pacemaker: rounds monotone, evidence-based, timeouts carry the highest QC."""
 from .. import ir
-from ..analysis import And, Atom, Not, Or, cmp_formula, implies, show, uncond_subnodes, atoms_of
+from ..analysis import And, Atom, Not, Or, cmp_formula, implies, show, uncond_subnodes, sure_subnodes, atoms_of
 from ..common import (BLOCK, CORE, QC, TC, TIMEOUT, Env, call_args, callee_paths, core_handlers, key, msg_param_term,
                       ordinal_keys)
 from .c03 import monotone_write
@@ -109,7 +109,7 @@ def rules(P, R, prefix="C10"):
                 hwf.append(f)
         for g in pq_fns:
             ctx = env.ctx(g)
-            unc = uncond_subnodes(g.body)
+            unc = sure_subnodes(g.body)
             ok = any(x["k"] in ("call", "mcall") and any(p in [h.path for h in hwf] for p in callee_paths(x))
                      and ctx.term(call_args(x)[1]) == "«QC»" for x in unc)
             R.judge(ok, prefix + ".P3", key(g, "every processed QC is folded into high_qc" + tag), g.sp, "",
@@ -159,7 +159,7 @@ def rules(P, R, prefix="C10"):
 
         # ---------------- P6 timer wiring
         for f in wf + [x[0] for x in [timer] if x]:
-            has = any(n["k"] == "mcall" and "consensus::timer::Timer::reset" in callee_paths(n) for n in uncond_subnodes(f.body)) or \
+            has = any(n["k"] == "mcall" and "consensus::timer::Timer::reset" in callee_paths(n) for n in sure_subnodes(f.body)) or \
                 any(n["k"] == "mcall" and "consensus::timer::Timer::reset" in callee_paths(n) for n in f.nodes())
             R.judge(has, prefix + ".P6", key(f, "timer.reset()" + tag), f.sp, "", "%s does not reset the round timer" % f.path)
 
